@@ -387,6 +387,12 @@ func (c09) Run(t *tape.Tape, st *Stats) *Violation {
 		faulted = true
 	}
 
+	// an I/O error of the source (once or from then on, alone or with data) in one
+	// run of six: error paths must not crash, spin or balloon either
+	if DrawIOFault(t, &cfg, fields, len(data)) {
+		faults = append(faults, fmt.Sprintf("io-error@%d", cfg.ErrAt))
+		faulted = true
+	}
 	src := simio.NewSource(simio.Bytes(data), cfg)
 	var calls []c09call
 	// steps: instrumented statements executed by prism's meta packages; the
